@@ -699,6 +699,18 @@ def _normalised_body(fn):
         txt = ast.unparse(st)
         txt = "; ".join(l.strip() for l in txt.splitlines() if l.strip() not in ("None",))
         out.append(txt)
+    # consecutive keyword overrides `if vK is not None: obj.attr = vK` touch different attributes: their order is free
+    import re
+
+    pat = re.compile(r"^if (v\d+) is not None:; v\d+\.\w+ = \1$")
+    i = 0
+    while i < len(out):
+        j = i
+        while j < len(out) and pat.match(out[j]):
+            j += 1
+        if j - i > 1 and len({x.split(" = ")[0].split("; ")[1] for x in out[i:j]}) == j - i:
+            out[i:j] = sorted(out[i:j])
+        i = max(j, i + 1)
     return out
 
 
